@@ -322,6 +322,7 @@ class Program:
                 self.impls.append(i)
         self._val_memo = {}
         self._in_progress = set()
+        self._prefer = None      # (fn path, frozenset(blocks)): branch-restricted evaluation
         self._closure_sites = None
         self._callers = None
 
@@ -455,8 +456,22 @@ class Program:
             return proj(v, ("sub", e["from"], e["to"], e["from_end"]))
         return ("unknown", "proj:" + k)
 
+    def val_operand_in(self, fn, loc, o, prefer_blocks, body=None):
+        """Value of operand `o` as seen along paths through `prefer_blocks`: wherever several definitions reach a use,
+        only those located in prefer_blocks are kept (if any)."""
+        old = self._prefer
+        self._prefer = (fn.path, frozenset(prefer_blocks))
+        try:
+            return self.val_operand(fn, loc, o, body)
+        finally:
+            self._prefer = old
+
     def val_local_in(self, fn, body, loc, local):
         sites = body.reaching(loc, local)
+        if self._prefer is not None and self._prefer[0] == fn.path and not body.tag and len(sites) > 1:
+            inn = [s for s in sites if s != "entry" and s[0] in self._prefer[1]]
+            if inn:
+                sites = inn
         vals = []
         for s in sites:
             if s == "entry":
@@ -505,7 +520,7 @@ class Program:
 
     def val_def(self, fn, body, site, local):
         b, i, kind = site
-        key = (fn.path, body.tag, b, i, kind, local)
+        key = (fn.path, body.tag, b, i, kind, local, self._prefer)
         if key in self._val_memo:
             return self._val_memo[key]
         if key in self._in_progress:
